@@ -29,10 +29,12 @@ CONSTANTS
   Setup,          \* sequence of CreateTopic / CreateSub requests applied first, in order
   Depth,          \* behaviours are printed when this depth is reached (0 = never)
   AttBound,       \* state constraint: largest attempt count explored
-  ViewKeep        \* which timestamps the exhaustive VIEW keeps (see View)
+  ViewKeep,       \* which timestamps the exhaustive VIEW keeps (see View)
+  Weights,        \* generation only: operation name -> weight (see GenNext)
+  AckAll          \* TRUE: Ack/ModAck/Nack may name any delivery; FALSE: only delivered ones
 
-VARIABLES S, ev, hist
-vars == <<S, ev, hist>>
+VARIABLES S, ev, hist, cls
+vars == <<S, ev, hist, cls>>
 
 NoEv == [op |-> "Init"]
 
@@ -40,7 +42,7 @@ Init0 == [now |-> 0, topics |-> <<>>, subs |-> <<>>, msgs |-> <<>>, del |-> <<>>
           snaps |-> <<>>, acked |-> {}, gsnap |-> <<>>,
           nt |-> 0, ns |-> 0, nm |-> 0, nd |-> 0, ph |-> 0]
 
-Init == S = Init0 /\ ev = NoEv /\ hist = <<>>
+Init == S = Init0 /\ ev = NoEv /\ hist = <<>> /\ cls = <<>>
 
 \* complete a step: attach times, compute ghost state
 Do(e0, C2) ==
@@ -56,6 +58,14 @@ Fail(e0, code) == Do(e0 @@ [code |-> code], S)
 OK(e0, C2) == Do(e0 @@ [code |-> "OK"], C2)
 
 Pick(X) == CHOOSE x \in X : TRUE
+RECURSIVE TakeK(_, _)
+TakeK(X, k) == IF k = 0 \/ X = {} THEN {} ELSE LET x == Pick(X) IN {x} \cup TakeK(X \ {x}, k - 1)
+RECURSIVE SeqOfSet(_)
+SeqOfSet(X) == IF X = {} THEN <<>> ELSE LET x == Pick(X) IN <<x>> \o SeqOfSet(X \ {x})
+\* all k-subsets of a small set; one canonical k-subset of a large one
+KSub(X, k) == IF Cardinality(X) <= k THEN {X}
+              ELSE IF Cardinality(X) <= 7 THEN {c \in SUBSET X : Cardinality(c) = k}
+              ELSE {TakeK(X, k)}
 MCBackoff(s, n) == Min2(S.subs[s].maxB, S.subs[s].minB + Max2(n, 1) - 1)
 
 NewDelRec(s, n) == [n |-> n, done |-> -1, att |-> 0, at |-> S.now + S.subs[s].delay,
@@ -136,11 +146,11 @@ Pull(snm, max) ==
   IF X = {} THEN Fail(e, "NotFound")
   ELSE
     LET s == Pick(X) E == Elig(s) k == Min2(max, Cardinality(E)) IN
-    \E C \in {c \in SUBSET E : Cardinality(c) = k} :
+    \E C \in KSub(E, k) :
       LET D == {d \in C : DLable(S, d)}
           R == C \ D
           \* a sequence of the returned deliveries (order is irrelevant to the contract)
-          Rs == CHOOSE q \in [1..Cardinality(R) -> R] : \A i, j \in DOMAIN q : i # j => q[i] # q[j]
+          Rs == SeqOfSet(R)
           got == [i \in DOMAIN Rs |->
                     [d |-> Rs[i], att |-> S.del[Rs[i]].att + 1, ok |-> TRUE,
                      bo |-> MCBackoff(s, S.del[Rs[i]].att + 1)]]
@@ -154,7 +164,9 @@ Pull(snm, max) ==
                [S EXCEPT !.del = del2, !.nd = @ + Cardinality(D),
                          !.subs = [@ EXCEPT ![s].exp = S.now + S.subs[s].ttl]])
 
-IdSeqs == {q \in UNION {[1..n -> Dels(S)] : n \in 1..AckMax} :
+Delivered == {d \in Dels(S) : S.del[d].att > 0}
+AckPool == IF AckAll \/ Delivered = {} THEN Dels(S) ELSE Delivered
+IdSeqs == {q \in UNION {[1..n -> AckPool] : n \in 1..AckMax} :
              \A i, j \in DOMAIN q : i < j => S.del[q[i]].n < S.del[q[j]].n \/
                                             (S.del[q[i]].n = S.del[q[j]].n /\ q[i][2] < q[j][2])}
 
@@ -224,7 +236,7 @@ DLSweep(max) ==
       due == {d \in Dels(S) : /\ ~IsDone(S, d) /\ DLable(S, d) /\ SubLive(S, d[2])
                               /\ S.del[d].at <= S.now /\ S.del[d].exp > S.now}
       k == Min2(max, Cardinality(due))
-  IN \E D \in {c \in SUBSET due : Cardinality(c) = k} :
+  IN \E D \in KSub(due, k) :
        LET del2 == DeadLetter(S.del, D) IN
        /\ Cardinality(DOMAIN del2) <= MaxDels
        /\ OK(e, [S EXCEPT !.del = del2, !.nd = @ + Cardinality(D)])
@@ -233,7 +245,7 @@ ExpireSubs(max) ==
   LET e == [op |-> "ExpireSubs", max |-> max]
       due == {s \in DOMAIN S.subs : S.subs[s].live /\ S.subs[s].exp < S.now}
       k == Min2(max, Cardinality(due))
-  IN \E E \in {c \in SUBSET due : Cardinality(c) = k} :
+  IN \E E \in KSub(due, k) :
        OK(e, [S EXCEPT !.subs = [s \in DOMAIN @ |->
                 IF s \in E THEN [@[s] EXCEPT !.live = FALSE, !.delAt = S.now] ELSE @[s]]])
 
@@ -241,7 +253,7 @@ Restrict(f, D) == [x \in D |-> f[x]]
 Prune(job, age, max) ==
   LET e == [op |-> job, minAge |-> age, max |-> max]
       lim == S.now - age
-      Some(X) == {c \in SUBSET X : Cardinality(c) = Min2(max, Cardinality(X))}
+      Some(X) == KSub(X, Min2(max, Cardinality(X)))
   IN
   CASE job = "PruneCompletedDeliveries" ->
          \E X \in Some({d \in Dels(S) : IsDone(S, d) /\ S.del[d].done <= lim}) :
@@ -289,7 +301,6 @@ Get(kind, nm) ==
       e == [op |-> "Get", kind |-> kind, name |-> nm, cfg |-> cfg]
   IN IF live THEN OK(e, S) ELSE Fail(e, "NotFound")
 
-SeqOfSet(X) == CHOOSE q \in [1..Cardinality(X) -> X] : \A i, j \in DOMAIN q : i # j => q[i] # q[j]
 List(kind) ==
   LET names == CASE kind = "topic" -> {S.topics[t].name : t \in {x \in DOMAIN S.topics : S.topics[x].live}}
                  [] kind = "sub" -> {S.subs[s].name : s \in {x \in DOMAIN S.subs : S.subs[x].live}}
@@ -297,36 +308,60 @@ List(kind) ==
   IN OK([op |-> "List", kind |-> kind, proj |-> "p", names |-> SeqOfSet(names)], S)
 
 ---------------------------------------------------------------------------
-On(op) == op \in Ops
-
 SetupStep ==
   LET r == Setup[S.ph + 1] IN
   CASE r.op = "CreateTopic" -> CreateTopic(r.name)
     [] r.op = "CreateSub" -> CreateSub(r.c)
 
+SeekTargets == IF S.now <= 8 THEN 0..(S.now + 1)
+               ELSE {0, S.now + 1} \cup {S.now - k : k \in {0, 1, 2, 4, 7}}
+
+\* -simulate: when the history has Depth requests, print it once and stop
+Emit == /\ PrintT(<<"SCENARIO", ToJson(hist)>>)
+        /\ hist' = Append(hist, [op |-> "End"]) /\ UNCHANGED <<S, ev>>
+
+GetAny ==
+  \/ \E nm \in TopicNames : Get("topic", nm)
+  \/ \E nm \in SubNames : Get("sub", nm)
+  \/ \E nm \in SnapNames : Get("snap", nm)
+
+OpNext(op) ==
+  CASE op = "CreateTopic" -> \E nm \in TopicNames : CreateTopic(nm)
+    [] op = "DeleteTopic" -> \E nm \in TopicNames : DeleteTopic(nm)
+    [] op = "CreateSub" -> \E c \in SubCfgs : CreateSub(c)
+    [] op = "DeleteSub" -> \E nm \in SubNames : DeleteSub(nm)
+    [] op = "Publish" -> \E nm \in TopicNames, b \in Batches : Publish(nm, b)
+    [] op = "Pull" -> \E nm \in SubNames, k \in PullMaxes : Pull(nm, k)
+    [] op = "Ack" -> \E nm \in SubNames, q \in IdSeqs : Ack(nm, q)
+    [] op = "ModAck" -> \E nm \in SubNames, q \in IdSeqs, x \in ModSecs : ModAck(nm, q, x)
+    [] op = "Nack" -> \E q \in IdSeqs : Nack(q)
+    [] op = "SeekTime" -> \E nm \in SubNames, T \in SeekTargets : SeekTime(nm, T)
+    [] op = "CreateSnap" -> \E n \in SnapNames, nm \in SubNames : CreateSnap(n, nm)
+    [] op = "DeleteSnap" -> \E n \in SnapNames : DeleteSnap(n)
+    [] op = "SeekSnap" -> \E n \in SnapNames, nm \in SubNames : SeekSnap(nm, n)
+    [] op = "DLSweep" -> \E k \in JobMaxes : DLSweep(k)
+    [] op = "ExpireSubs" -> \E k \in JobMaxes : ExpireSubs(k)
+    [] op \in PruneJobs -> \E a \in JobAges, k \in JobMaxes : Prune(op, a, k)
+    [] op = "Get" -> GetAny
+    [] op = "List" -> \E k \in {"topic", "sub", "snap"} : List(k)
+    [] op = "Tick" -> \E d \in TickDs : Tick(d)
+
+(* Generation (-simulate): TLC chooses uniformly among successor STATES,    *)
+(* which starves operations with few parameter choices (clock advances).    *)
+(* A generation step is therefore split in two: first an operation class is *)
+(* drawn (one successor per unit of weight, kept in `cls`), then a          *)
+(* successor of that class; a unit clock advance is always offered as well  *)
+(* so that no behaviour dies before Depth.                                  *)
+GenClasses == UNION {{<<op, i>> : i \in 1..Weights[op]} : op \in Ops}
+GenNext ==
+  IF cls = <<>>
+  THEN \E c \in GenClasses : cls' = c /\ UNCHANGED <<S, ev, hist>>
+  ELSE (OpNext(cls[1]) \/ Tick(1)) /\ cls' = <<>>
+
 Next ==
-  IF S.ph < Len(Setup) THEN SetupStep ELSE
-  \/ On("CreateTopic") /\ \E nm \in TopicNames : CreateTopic(nm)
-  \/ On("DeleteTopic") /\ \E nm \in TopicNames : DeleteTopic(nm)
-  \/ On("CreateSub") /\ \E c \in SubCfgs : CreateSub(c)
-  \/ On("DeleteSub") /\ \E nm \in SubNames : DeleteSub(nm)
-  \/ On("Publish") /\ \E nm \in TopicNames, b \in Batches : Publish(nm, b)
-  \/ On("Pull") /\ \E nm \in SubNames, k \in PullMaxes : Pull(nm, k)
-  \/ On("Ack") /\ \E nm \in SubNames, q \in IdSeqs : Ack(nm, q)
-  \/ On("ModAck") /\ \E nm \in SubNames, q \in IdSeqs, x \in ModSecs : ModAck(nm, q, x)
-  \/ On("Nack") /\ \E q \in IdSeqs : Nack(q)
-  \/ On("SeekTime") /\ \E nm \in SubNames, T \in 0..S.now : SeekTime(nm, T)
-  \/ On("CreateSnap") /\ \E n \in SnapNames, nm \in SubNames : CreateSnap(n, nm)
-  \/ On("DeleteSnap") /\ \E n \in SnapNames : DeleteSnap(n)
-  \/ On("SeekSnap") /\ \E n \in SnapNames, nm \in SubNames : SeekSnap(nm, n)
-  \/ On("DLSweep") /\ \E k \in JobMaxes : DLSweep(k)
-  \/ On("ExpireSubs") /\ \E k \in JobMaxes : ExpireSubs(k)
-  \/ \E j \in PruneJobs : On(j) /\ \E a \in JobAges, k \in JobMaxes : Prune(j, a, k)
-  \/ On("Get") /\ \/ \E nm \in TopicNames : Get("topic", nm)
-                  \/ \E nm \in SubNames : Get("sub", nm)
-                  \/ \E nm \in SnapNames : Get("snap", nm)
-  \/ On("List") /\ \E k \in {"topic", "sub", "snap"} : List(k)
-  \/ On("Tick") /\ \E d \in TickDs : Tick(d)
+  IF Depth > 0 /\ Len(hist) >= Depth THEN (Len(hist) = Depth /\ Emit /\ cls' = cls) ELSE
+  IF S.ph < Len(Setup) THEN SetupStep /\ cls' = cls ELSE
+  IF Depth > 0 THEN GenNext ELSE (\E op \in Ops : OpNext(op)) /\ cls' = cls
 
 Spec == Init /\ [][Next]_vars
 
@@ -369,9 +404,6 @@ LeaseKept ==
        \A i \in DOMAIN ev'.got : S.del[ev'.got[i].d].at <= S.now]_vars
 
 ---------------------------------------------------------------------------
-(* Scenario output for -simulate: print the request history at Depth.      *)
-PrintAtDepth ==
-  (Depth > 0 /\ TLCGet("level") = Depth) => PrintT(<<"SCENARIO", ToJson(hist)>>)
 
 (* State constraint and VIEW for exhaustive runs.  The view forgets stamps  *)
 (* that cannot influence any later step of the configuration at hand:      *)
